@@ -373,7 +373,7 @@ class Ctx:
             "coverage": cov, "assumptions": self.assumptions,
             "wall_s": round(time.time() - self.t0, 2), "violations": len(self.violations),
         }
-        edir = VERIF / "evidence"
+        edir = Path(os.environ.get("VERIF_EVIDENCE_DIR", str(VERIF / "evidence")))
         edir.mkdir(exist_ok=True)
         (edir / f"{self.pid}.json").write_text(json.dumps(ev, indent=1, ensure_ascii=False) + "\n")
         return 1 if self.violations else 0
